@@ -89,6 +89,25 @@ CHECKS = {
         note='format side-cars (.aux.xml/.msk/.ovr) whitelisted; GDAL truncation on open(w) trusted.',
         technique='Coq proof over a file-protocol model regenerated from source + history-based correspondence',
         design='5/C10'),
+    'C11': dict(
+        text='Theorems (Coq over Q): block sums accumulate to the sums over ALL jointly valid pixels for any partition into blocks and any '
+             'completion order; N = their number; RMSE^2 = mean squared difference; r2 = cov^2/(var var) (squared Pearson); rRMSE^2 = '
+             'RMSE^2 / mean(ref)^2; zero-overlap blocks partition the processing window. Tie: Stats.Compare evaluated in Coq on the pixel '
+             'pairs of real file pairs whose processing-grid values are known exactly (same grid, aligned 2x/4x finer source; float32 sums '
+             'exact) against RasterCompare.process (N exact, squares of the reported doubles to 1e-8), an exact-fraction oracle, and the '
+             'single-block run; general geometries for block invariance.',
+        note='partial: GDAL resampling is an oracle (H_down_local). Known finding D8 (forced finer grid: block-dependent RMSE/r2) is KNOWN-FINDING.',
+        technique='Coq proof (list-sum algebra, field) + in-Coq correspondence with RasterCompare on exactly known pixel pairs',
+        design='5/C11'),
+    'C12': dict(
+        text='Theorems (Coq over Q): min/max are attained bounds; mean; std^2 = population variance; in-paint % = 100 * #(R2 < threshold) / n; '
+             'sums independent of tiling and completion order; the data-window pre-pass skips no pixel inside the bounding window. Tie: '
+             'Stats.Param evaluated in Coq on the valid values per internal tile of synthetic parameter images (random float32, per-band '
+             'masks, 3 models, thresholds incl. None, 4 tile layouts) and of images written by real fusions, against ParamStats.stats '
+             '(1e-9; min/max exact), an exact-fraction oracle and single- vs multi-threaded runs.',
+        note='hypothesis: valid pixels of every band lie inside the bounding window of band 1 (true for fuse output). D6 fixed (df78f2a).',
+        technique='Coq proof (fold invariants for min/max, sum algebra) + in-Coq correspondence with ParamStats on real files',
+        design='5/C12'),
     'C15': dict(
         text='Theorems (Coq, every band count, selection, metadata; greedy matcher generic in the distance type): equal lengths; matched '
              'source bands are a subsequence of the selection (all of it unless forced); reference bands come from the reference selection and '
